@@ -277,7 +277,11 @@ pub fn generate(seed: u64, n: usize, thorough: bool) -> Cases {
             }
             format!("({})", parts.join(if r.chance(1, 5) { " , " } else { ", " }))
         };
-        let src = format!("local function w(...)\n  {}{}{}\nend\n", callee, if sugar <= 1 && r.chance(1, 2) { " " } else { "" }, args_text);
+        let mut src = format!("local function w(...)\n  {}{}{}\nend\n", callee, if sugar <= 1 && r.chance(1, 2) { " " } else { "" }, args_text);
+        if r.chance(1, 5) {
+            // a file with CRLF line endings: a long-bracket string that starts with a line break starts with "\r\n"
+            src = src.replace('\n', "\r\n");
+        }
         // parse and locate the call
         let ast = match full_moon::parse_fallible(&src, full_moon::LuaVersion::lua51()).into_result() {
             Ok(a) => a,
